@@ -853,6 +853,7 @@ func genReq(r *hx.Rand, c Cfg) Req {
 		{"tree-static", "GET", "/star*"},
 		{"post", "POST", "/only/post"},
 		{"405", hx.Pick(r, []string{"GET", "PUT"}), "/only/post"},
+		{"405-ten-params", hx.Pick(r, []string{"POST", "PUT", "DELETE"}), tenPath(r, "/p", 10)},
 		{"404", hx.Pick(r, []string{"GET", "POST", "DELETE"}), hx.Pick(r, []string{"/nope", "/d", "/c/abc", tenPath(r, "/p", 9)})},
 		{"k03a", "GET", tenPath(r, "/m/s", 9) + "/zz"},
 		{"ver-static", "GET", "/vs"},
@@ -902,6 +903,25 @@ func witnesses() []Case {
 		// K03a: a failed compiled candidate leaves :i in the Params map of the same request
 		{C: Cfg{Compiled: true}, H: []Req{
 			{Method: "GET", Path: "/m/s/1/2/3/4/5/6/7/8/9/zz", Class: "k03a"},
+			{Method: "GET", Path: "/s/a", Class: "static"},
+		}},
+		// overlap after a sunset answer through the version tree (a double put would hand both requests one object)
+		{C: Cfg{Versioning: true}, H: []Req{
+			{Method: "GET", Path: "/vd/7", Ver: "v0", Class: "ver-param"},
+			{Method: "GET", Path: "/d/1", Nested: 2, Dirty: d, Class: "param"},
+			{Method: "GET", Path: "/d/2/e/3", Inner: true, Dirty: d, Class: "param"},
+			{Method: "GET", Path: "/s/a", Class: "static"},
+		}},
+		// a handler that aborts, collects errors and panics out of ServeHTTP; the next request must be unaffected
+		{C: Cfg{}, H: []Req{
+			{Method: "GET", Path: "/d/1", Dirty: d, Panic: true, Class: "param"},
+			{Method: "GET", Path: "/s/a", Class: "static"},
+			{Method: "GET", Path: "/d/2", Class: "param"},
+		}},
+		// 405 probe over a 10-parameter route of another method, then a short route on the same object
+		{C: Cfg{}, H: []Req{
+			{Method: "PUT", Path: "/p/1/2/3/4/5/6/7/8/9/10", Class: "405-ten-params"},
+			{Method: "GET", Path: "/d/7", Class: "param"},
 			{Method: "GET", Path: "/s/a", Class: "static"},
 		}},
 		{C: Cfg{App: true, Versioning: true}, H: []Req{
@@ -955,6 +975,12 @@ func main() {
 				for _, d := range cs.H[i].Dirty {
 					st.Count("dirty:" + d.Kind)
 				}
+				if cs.H[i].Nested > 0 {
+					st.Count("nested(overlapping)-requests")
+				}
+				if cs.H[i].Panic {
+					st.Count("handler-panics-out-of-ServeHTTP")
+				}
 			}
 			st.Count(fmt.Sprintf("cfg:compiled=%v,versioning=%v,noRoute=%v,app=%v", cs.C.Compiled, cs.C.Versioning, cs.C.NoRoute, cs.C.App))
 			st.Counters["requests"] += len(cs.H)
@@ -973,6 +999,20 @@ func main() {
 			h := make([]Req, n)
 			for j := range h {
 				h[j] = genReq(r, c)
+			}
+			// overlapping requests, deterministically: the handler of request j serves request j+1 before it returns
+			for j := 0; j+1 < n; j++ {
+				if _, _, runs := predictSteps(c, h[j], j); runs && r.Chance(1, 3) {
+					h[j].Nested, h[j+1].Inner = j+1, true
+					j++
+				}
+			}
+			// handlers that panic after dirtying the context (no recovery middleware)
+			for j := range h {
+				if !h[j].Inner && r.Chance(1, 8) {
+					h[j].Panic = true
+					h[j].Dirty = append(h[j].Dirty, Dirty{Kind: "A"}, Dirty{Kind: "E", N: 2})
+				}
 			}
 			cs := Case{C: c, H: h}
 			if a.Tier == "thorough" && i%4 == 3 {
